@@ -19,10 +19,18 @@ TIGHT = Cls('ASCII', minus=' ', plus='é')         # no blank at the edges: the 
 TIGHT_BLOCK = Cls('ASCII', minus=' */', plus='é')
 
 
+def _positions(text):
+    in_comment = set()
+    for kind, s_, e_ in T.scan(text):
+        if kind == 'comment':
+            in_comment.update(range(s_, e_))      # nested comments are outside the claim
+    return [-1] + [i for i, ch in enumerate(text) if ch == '\n' and i not in in_comment]
+
+
 def inert(element, form, batch, K=2, size=6):
     """a comment inserted at an admissible position changes nothing but comment attributes"""
     text = T.ELEMENTS[element]
-    nls = [-1] + [i for i, ch in enumerate(text) if ch == '\n']
+    nls = _positions(text)
     spans = batches(nls, size)[batch]
     dom = CMT if form in ('eol_line', 'own_line') else CMT_BLOCK
     args = ([('p', IntRange(0, len(spans) - 1))] if len(spans) > 1 else []) + hole_args('b', K, dom)
@@ -215,8 +223,7 @@ def render(kind, K=2):
 
 
 def _nb(element, size=6):
-    text = T.ELEMENTS[element]
-    return (text.count('\n') + 1 + size - 1) // size
+    return (len(_positions(T.ELEMENTS[element])) + size - 1) // size
 
 
 def instances(tier):
